@@ -523,6 +523,99 @@ func runRecurringUniverse(c *fw.Ctx, deal func() bool) {
 		}
 	}
 	c.Note("universe_c", fmt.Sprintf("%d recurring event shapes x all (start,end) pairs over the instance-boundary grid", shapes))
+	runZonedRecurringUniverse(c, deal)
+}
+
+// (c') recurring events whose DTSTART carries a TZID, the rule running across
+// a change of the zone's UTC offset: the instances keep their local time, so
+// their distance in absolute time is not a multiple of 24 h. The grid holds
+// the boundaries of every instance, and the same boundaries shifted by the
+// size of the offset change (where an expansion on the wrong clock puts them).
+func runZonedRecurringUniverse(c *fw.Ctx, deal func() bool) {
+	type zc struct {
+		zone       string
+		y, m, d    int // local date of the first instance (two days before the change)
+		h          int
+		shift      time.Duration
+		transition string
+	}
+	cases := []zc{
+		{"Europe/Berlin", 2024, 3, 29, 10, time.Hour, "spring forward 2024-03-31"},
+		{"Europe/Berlin", 2024, 10, 25, 10, time.Hour, "fall back 2024-10-27"},
+		{"America/New_York", 2024, 3, 8, 9, time.Hour, "spring forward 2024-03-10"},
+		{"America/New_York", 2024, 11, 1, 18, time.Hour, "fall back 2024-11-03"},
+		{"Australia/Lord_Howe", 2024, 4, 5, 12, 30 * time.Minute, "half-hour change 2024-04-07"},
+		{"Asia/Kolkata", 2024, 3, 29, 10, 0, "no change (control)"},
+	}
+	shapes := 0
+	for _, z := range cases {
+		loc, err := loadLoc(z.zone)
+		if err != nil {
+			c.Note("universe_c_zoned", "zone "+z.zone+" not available: "+err.Error())
+			continue
+		}
+		S := time.Date(z.y, time.Month(z.m), z.d, z.h, 0, 0, 0, loc)
+		for _, rule := range []string{"FREQ=DAILY;COUNT=4", "FREQ=DAILY;COUNT=3;INTERVAL=2", "FREQ=WEEKLY;COUNT=2", "FREQ=DAILY;COUNT=1"} {
+			for _, dur := range []time.Duration{0, time.Hour} {
+				for _, endSpelling := range []string{"DTEND", "DURATION", "none"} {
+					if (dur == 0) != (endSpelling == "none") {
+						continue
+					}
+					shapes++
+					ev := Comp{Name: "VEVENT", Props: []Prop{rawProp("UID", "rz"), dtProp("DTSTART", S, z.zone)}}
+					switch endSpelling {
+					case "DTEND":
+						ev.Props = append(ev.Props, dtProp("DTEND", S.Add(dur), z.zone))
+					case "DURATION":
+						ev.Props = append(ev.Props, durProp(dur))
+					}
+					ev.Props = append(ev.Props, rawProp("RRULE", rule))
+					rr, ok := parseRRule(rule)
+					if !ok {
+						continue
+					}
+					iv := evInterval{S: S, E: S.Add(dur), rec: rr, wall: loc}
+					pts := map[int64]time.Time{}
+					for _, in := range iv.instances() {
+						for _, t := range []time.Time{in[0], in[1]} {
+							for _, sh := range []time.Duration{0, z.shift, -z.shift} {
+								for _, off := range []time.Duration{0, -30 * time.Minute, 30 * time.Minute} {
+									u := t.Add(sh + off)
+									pts[u.Unix()] = u
+								}
+							}
+						}
+					}
+					var grid []time.Time
+					for _, t := range pts {
+						grid = append(grid, t)
+					}
+					sort.Slice(grid, func(i, j int) bool { return grid[i].Before(grid[j]) })
+					cal := vcal(ev)
+					for rs := -1; rs < len(grid); rs++ {
+						for re := rs + 1; re < len(grid) && re <= rs+4; re++ {
+							// narrow windows (up to four grid steps) tell the hours apart; plus the open-ended ones
+							if !deal() {
+								continue
+							}
+							var a, b Time
+							if rs >= 0 {
+								a = mkTime(grid[rs], "")
+							}
+							b = mkTime(grid[re], "")
+							f := rangeFilter(a, b)
+							execMatch(c, Case{Op: "match", Universe: "c:recurring with TZID across an offset change (exhaustive)", Filter: &f, Object: &cal})
+						}
+						if rs >= 0 && deal() {
+							f := rangeFilter(mkTime(grid[rs], ""), Time{})
+							execMatch(c, Case{Op: "match", Universe: "c:recurring with TZID across an offset change (exhaustive)", Filter: &f, Object: &cal})
+						}
+					}
+				}
+			}
+		}
+	}
+	c.Note("universe_c_zoned", fmt.Sprintf("%d zoned recurring event shapes (Europe/Berlin, America/New_York, Australia/Lord_Howe, Asia/Kolkata; DAILY/WEEKLY across a UTC-offset change) x narrow ranges over the instance-boundary grid, also shifted by the size of the change", shapes))
 }
 
 // ---------------------------------------------------------------------------
